@@ -48,7 +48,8 @@ theorem VR2.not_envptr (L : Laws2 D) {W : World} {h : H} {S : Array Cell} {v : V
 theorem Ext2.storeOnly (L : Laws2 D) (h : H) {S S' : Array Cell} (x : StoreExt S S') : Ext2 D h S h S' :=
   ⟨x, fun _ _ y => L.vr_store _ _ _ _ _ x y,
    fun _ _ y => DatumAt.transport (fun _ _ z => L.vr_store _ _ _ _ _ x z) (fun _ _ _ z => z) (fun _ _ z => z) y,
-   fun _ y => ⟨y, fun _ => rfl, rfl, rfl⟩, fun _ _ _ y => y, fun _ _ _ _ y => y, fun _ _ v y z => ⟨v, y, z⟩⟩
+   fun _ y => ⟨y, fun _ => rfl, rfl, rfl⟩, fun _ _ _ y => y, fun _ y => y, fun _ _ _ _ y => y,
+   fun _ _ v y z => ⟨v, y, z⟩⟩
 
 /-- a store all of whose cells are kept is an extension -/
 theorem StoreExt.ofStorePrefix {S S' : Array Cell} (h : StorePrefix S S') : StoreExt S S' := by
